@@ -504,6 +504,13 @@ func (k *Keys) keyIndex(pk types.PublicKey) int {
 	return -1
 }
 
+func (k *Keys) keyIndexOr0(pk types.PublicKey) int {
+	if i := k.keyIndex(pk); i >= 0 {
+		return i
+	}
+	return 0
+}
+
 // NewV2Contract returns an unsigned contract with ProofHeight=h+a, ExpirationHeight=ProofHeight+b and file size F.
 func (w *World) NewV2Contract(h, a, b, F uint64) types.V2FileContract {
 	capacity := (F + 63) / 64 * 64
